@@ -59,7 +59,9 @@ var c09Pooled = map[string]bool{
 	"github.com/cloudwego/hertz/pkg/protocol.Response": true, "github.com/cloudwego/hertz/pkg/app.RequestContext": true,
 }
 
-func c09IsPooled(t reflect.Type) bool { return t.Kind() == reflect.Struct && c09Pooled[t.PkgPath()+"."+t.Name()] }
+func c09IsPooled(t reflect.Type) bool {
+	return t.Kind() == reflect.Struct && c09Pooled[t.PkgPath()+"."+t.Name()]
+}
 
 func c09Access(v reflect.Value) reflect.Value {
 	if v.CanAddr() {
@@ -1018,7 +1020,7 @@ func c09OpProbeC(a []string) []string {
 	if err := eng.Init(); err != nil {
 		panic(err)
 	}
-	eng.MarkAsRunning() //nolint
+	eng.MarkAsRunning()                                                                                          //nolint
 	eng.Serve(context.Background(), standard.VerifNewConn(newScriptConn([]byte(c09ProbeReq), nil, false), 4096)) //nolint
 	var wg sync.WaitGroup
 	for g := 0; g < conns; g++ {
